@@ -191,12 +191,20 @@ def segmentations(stream, tier, two_cuts):
 def check_streams(chunk):
     logging.disable(logging.CRITICAL)
     viols, stats, samples = [], collections.Counter(), []
+    hangs = 0
     for names, tail, tier, two_cuts in chunk:
+        if hangs >= 5:
+            stats["streams_skipped_after_pump_hangs"] += 1
+            continue  # a poll loop that never goes idle: every further run would only wait for the guard again
         stream = b"".join(FRAMES[n] for n in names) + tail
         ref_state, ref_order, per_line, lines = reference(stream)
         stats["streams"] += 1
         for seg_name, chunks in segmentations(stream, tier, two_cuts):
+            if hangs >= 5:
+                break
             for flavour, drain_each in (("async", True), ("sync", True), ("sync", False), ("tcp", True), ("tcp", False)):
+                if hangs >= 5:
+                    break
                 stats["runs"] += 1
                 if flavour == "tcp":
                     state, sent, exc = run_stream_tcp(chunks, drain_each)
@@ -207,6 +215,8 @@ def check_streams(chunk):
                 where = f"{flavour}|{sched}"
                 if exc is not None:
                     viols.append(Violation(PROP, f"exception|{where}|{exc['type']}@{exc['site']}", f"stream {names}+{tail!r} as {seg_name}: {exc['type']}: {exc['text']}", rep))
+                    if exc["type"] == "PumpHang":
+                        hangs += 1
                     continue
                 if state != ref_state:
                     kind = "buffer" if state[0] == ref_state[0] else "state"
